@@ -859,10 +859,10 @@ class Interp(object):
 
     def discharge_sides(self, reg, prefix, function=None, replay=None):
         """Prove the recorded safety side-obligations (index/slice in bounds,
-        divisor non-zero, shapes match), batched per (kind, pc length)."""
+        divisor non-zero, shapes match), batched per (kind, path condition)."""
         groups = {}
         for kind, spc, goal, where in self.side:
-            key = (kind, len(spc))
+            key = (kind, tuple(p_.get_id() for p_ in spc))     # same path condition, not merely the same length
             g = groups.setdefault(key, (spc, [], []))
             s = goal.sexpr()
             if s not in g[2]:
@@ -1911,6 +1911,10 @@ class Interp(object):
             raise OutsideSubset("operator %s on symbolic strings" % sym)
         if sym == "%" and isinstance(a, str) and isinstance(b, tuple) and any(is_str_sym(x) for x in b):
             return str_format(a, b)
+        if sym == "+" and isinstance(a, tuple) and isinstance(b, SArr) and getattr(b, "from_tuple", False):
+            # tuple + (symbolic slice of a tuple of scalars): the slice stays one element group of the tuple;
+            # np.hstack lays the groups out consecutively
+            return a + (b,)
         from . import pymat as _pmat
         if isinstance(a, _pmat.SMat) or isinstance(b, _pmat.SMat):
             if op in (ast.BitAnd, ast.BitOr):
